@@ -68,6 +68,12 @@ class SSHSOCKSForwarder(SSHLocalForwarder):
         self._host = ''
         self._port = 0
 
+    def close(self) -> None:
+        """Close this SOCKS forwarder and stop parsing its input"""
+
+        self._recv_handler = None
+        super().close()
+
     def _connect(self) -> None:
         """Send request to open a new tunnel connection"""
 
